@@ -172,6 +172,33 @@ def check_like_terms(rec, rng):
                     answers[text + "   [some + - * nodes are instances of user subclasses]"] = bool(U.has_like_terms(other))
                 except Exception as e:
                     answers[text + "   [some + - * nodes are instances of user subclasses]"] = "raised " + type(e).__name__
+    # the same node OBJECT as two addends (AddExpression(t, t); a parser hands out its cached tree for a repeated
+    # text): it is the sum it prints as
+    if wrap == "{}" and len(terms) >= 2 and rng.random() < 0.3:
+        from mathy_core import expressions as E
+
+        try:
+            objs = {}
+            for tx in terms:
+                if tx not in objs:
+                    objs[tx] = D.parse(tx)
+            doubled = terms + [terms[0]]
+            shared = None
+            for tx in doubled:
+                shared = objs[tx] if shared is None else E.AddExpression(shared, objs[tx])
+            label = " + ".join(doubled) + "   [equal addends are one shared node object]"
+            rec.arm("like:shared-addend-objects")
+            answers[label] = bool(U.has_like_terms(shared))
+            answers[" + ".join(doubled)] = bool(U.has_like_terms(D.parse(" + ".join(doubled))))
+            if len(set(answers.values())) > 1 and answers[label] != answers[" + ".join(doubled)]:
+                rec.ev()
+                rec.violation("C16", "like-terms/order-or-grouping", "has_like_terms depends on the order or grouping of the added terms",
+                              {"terms": doubled, "shared": True, "a": label, "b": " + ".join(doubled),
+                               "summary": f"has_like_terms('{label}') = {answers[label]} but has_like_terms of the parsed text = {answers[' + '.join(doubled)]}"})
+            # (the doubled sum is a different expression from the arrangements above: not compared with them)
+            del answers[label], answers[" + ".join(doubled)]
+        except Exception:
+            pass
     if len(answers) < 2:
         return
     rec.ev()
@@ -661,6 +688,14 @@ def replay(rec, cfg, w):
         import mathy_core.util as U
 
         def ask(text, k):
+            if text.endswith("[equal addends are one shared node object]"):
+                from mathy_core import expressions as E
+
+                objs, shared = {}, None
+                for tx in w["terms"]:
+                    objs.setdefault(tx, D.parse(tx))
+                    shared = objs[tx] if shared is None else E.AddExpression(shared, objs[tx])
+                return U.has_like_terms(shared)
             mark = "   [some + - * nodes"
             if mark not in text:
                 return U.has_like_terms(D.parse(text))
